@@ -98,16 +98,25 @@ impl Client {
         {
             Ok(record) => {
                 debug!("Got scratchpad for {scratch_key:?}");
-                try_deserialize_record::<Scratchpad>(&record)
-                    .map_err(|_| VaultError::CouldNotDeserializeVaultScratchPad(scratch_address))?
+                let pad = try_deserialize_record::<Scratchpad>(&record)
+                    .map_err(|_| VaultError::CouldNotDeserializeVaultScratchPad(scratch_address))?;
+                // only a scratchpad of this owner, signed by this owner, is the vault
+                if *pad.owner() != client_pk || !pad.is_valid() {
+                    error!("Scratchpad returned for {scratch_key:?} is not validly signed by its owner");
+                    return Err(VaultError::CouldNotDeserializeVaultScratchPad(
+                        scratch_address,
+                    ));
+                }
+                pad
             }
             Err(NetworkError::GetRecordError(GetRecordError::SplitRecord { result_map })) => {
                 debug!("Got multiple scratchpads for {scratch_key:?}");
+                // unsigned, wrongly signed, foreign or unreadable versions are discarded
                 let mut pads = result_map
                     .values()
-                    .map(|(record, _)| try_deserialize_record::<Scratchpad>(record))
-                    .collect::<Result<Vec<_>, _>>()
-                    .map_err(|_| VaultError::CouldNotDeserializeVaultScratchPad(scratch_address))?;
+                    .filter_map(|(record, _)| try_deserialize_record::<Scratchpad>(record).ok())
+                    .filter(|pad| *pad.owner() == client_pk && pad.is_valid())
+                    .collect::<Vec<_>>();
 
                 // take the latest versions
                 pads.sort_by_key(|s| s.count());
